@@ -286,6 +286,7 @@ class Engine:
         self.fault_counts = {}
         self.dead = False
         self.steps = 0
+        self.mainpos = 0
         self.maxsteps = plan.get("maxsteps", 3000)
         self._starting = None
         self.installed = False
@@ -408,6 +409,12 @@ class Engine:
 
     def choose(self, opts):
         labels = [self.label(o) for o in opts]
+        if getattr(self.chooser, "wants_keys", False):
+            last = self.trace[-1] if self.trace else None
+            self.chooser.keys.append(
+                hash((json.dumps(last["st"], sort_keys=True) if last else "", last["a"] if last else "",
+                      tuple(labels), len(self.trace) and self.mainpos))
+            )
         i = self.chooser.choose(labels, self)
         self.choices.append(i)
         return opts[i]
@@ -521,6 +528,9 @@ class Engine:
             self.perform(self.choose(opts))
             if self.dead:
                 raise SchedulerDeath("dead")
+        if getattr(task, "xv_kind", "") == "awaitcompletion":
+            # the loop keeps running until __exit__ stops it
+            self.idle()
 
     def idle(self):
         """Between two main-thread operations: anything may happen"""
@@ -660,8 +670,8 @@ class Engine:
         verdict = {"end": "ok"}
         try:
             self.start_scheduler()
-            for op in self.plan["program"]:
-                if self.phase != "run" and op[0] != "restart":
+            for self.mainpos, op in enumerate(self.plan["program"]):
+                if self.phase != "run" and op[0] not in ("restart", "rmdone"):
                     continue
                 try:
                     if op[0] == "submit":
@@ -673,6 +683,13 @@ class Engine:
                     elif op[0] == "kill":
                         self.kill_scheduler()
                         self.record("Die", {"at": "main"})
+                    elif op[0] == "rmdone":
+                        # the user removes a success marker between two runs
+                        if self.phase == "run":
+                            raise MachineryError("rmdone while the scheduler runs")
+                        self.paths[op[1]]["done"].unlink()
+                        self.bodyends[op[1]] = 0
+                        self.record("RmDone", {"n": op[1]})
                     elif op[0] == "restart":
                         if self.phase == "run":
                             raise MachineryError("restart of a live scheduler")
@@ -824,10 +841,13 @@ class RandomChooser:
 class ReplayChooser:
     """Replays a recorded list of choices, then falls back to the first option"""
 
+    wants_keys = True
+
     def __init__(self, choices):
         self.choices = list(choices)
         self.i = 0
         self.widths = []
+        self.keys = []
 
     def choose(self, labels, engine):
         self.widths.append(len(labels))
